@@ -27,6 +27,10 @@ def generate(rng, tier, n):
     while len(cases) < n:
         t, st = gen_tree(rng, max_nodes=rng.choice([8, 20, 40]), max_depth=rng.choice([3, 5, 6]),
                          p_share=rng.choice([0.5, 0.8]))
+        if cid % 7 == 5:
+            # the same rules in a far-out payoff unit (exact power of two), down to subnormal regret totals
+            from ..solvers import scale_payoffs
+            t = scale_payoffs(t, 2.0 ** [-1040, -200, 150][(cid // 7) % 3])
         method = rng.choice(["full", "sampled", "external"])
         params = rand_params(rng, wild=rng.random() < 0.4)
         draws = draws_for(rng, t, st, n=101)
